@@ -754,7 +754,7 @@ func RuleG5(c *Ctx) {
 // G6 pool discipline
 
 func RuleG6(c *Ctx) {
-	c.Rule("G6", "pool discipline: a value obtained from bigIntPool.Get() is never used after Put on any path, never returned, stored outside the frame, sent or captured")
+	c.Rule("G6", "pool discipline: a value obtained from bigIntPool.Get() is never used after Put on any path, never returned, stored outside the frame, sent or captured, and is put back at most once on every path (explicit and deferred Puts together)")
 	n := 0
 	for _, top := range c.P.TopFuncs() {
 		for _, fn := range core.Family(top) {
@@ -824,7 +824,7 @@ func RuleG6(c *Ctx) {
 						}
 					}
 				}
-				var puts []ssa.Instruction
+				var puts, deferred []ssa.Instruction
 				var uses []ssa.Instruction
 				var escapes []string
 				for v := range vals {
@@ -847,6 +847,7 @@ func RuleG6(c *Ctx) {
 						case *ssa.Defer:
 							if core.IsMethod(core.Callee(x.Common()), "sync", "Pool", "Put") {
 								// deferred Put runs at function exit: after every other use
+								deferred = append(deferred, x)
 								continue
 							}
 							uses = append(uses, x)
@@ -873,7 +874,30 @@ func RuleG6(c *Ctx) {
 						}
 					}
 				}
-				c.Check(ok2, "G6", key, call.Pos(), "pooled big.Int escapes or is used after being returned to the pool: "+why, fmt.Sprintf("%d uses, %d Put(s), none after Put; no escape", len(uses), len(puts)))
+				// at most one Put per Get on every path: an object put twice is handed to two later Get calls at once
+				for i, p := range puts {
+					for j, q := range puts {
+						if i != j && core.CanReach(fn, p, q) {
+							ok2 = false
+							why += fmt.Sprintf(" put back twice on one path (%s and %s): two later Get calls can receive the same object;", c.P.Pos(p.Pos()), c.P.Pos(q.Pos()))
+						}
+					}
+					for _, d := range deferred {
+						if core.CanReach(fn, d, p) || core.CanReach(fn, p, d) {
+							ok2 = false
+							why += fmt.Sprintf(" put back by the deferred Put at %s and again by the Put at %s: two later Get calls can receive the same object;", c.P.Pos(d.Pos()), c.P.Pos(p.Pos()))
+						}
+					}
+				}
+				for i, d := range deferred {
+					for j, e := range deferred {
+						if i != j && core.CanReach(fn, d, e) {
+							ok2 = false
+							why += fmt.Sprintf(" two deferred Puts (%s, %s);", c.P.Pos(d.Pos()), c.P.Pos(e.Pos()))
+						}
+					}
+				}
+				c.Check(ok2, "G6", key, call.Pos(), "pooled big.Int escapes, is used after being returned to the pool, or is returned to it twice: "+why, fmt.Sprintf("%d uses, %d Put(s), none after Put; no escape", len(uses), len(puts)))
 			}
 		}
 	}
